@@ -1,5 +1,6 @@
 import ArimModel.Views
 import ArimProofs.Generated.C18Table
+import ArimProofs.Lemmas.Views
 /-! # C18 — views and paths mean what their names say; unique views are reciprocity classes -/
 namespace Arim.C18
 open Arim.Views
@@ -124,5 +125,249 @@ example : wellWired ⟨.immersion, ['L','T'], ['T'],
     ⟨['L','T'], [probeI, immFrontTrans, immBackRefl, gridI], [.couplant, .block, .block], ['L','L','T']⟩,
     ⟨['T'], [probeI, immFrontTrans, gridI], [.couplant, .block], ['L','T']⟩, ['T','T']⟩ = true := by decide
 example : makeViewnames [['L'], ['T']] true = [(['L'],['L']), (['L'],['T']), (['T'],['T'])] := by decide
+
+/-! ## View names: all ordered pairs, in the documented order -/
+
+/-- **`make_viewnames(names, unique_only=False)` returns every ordered pair (tx, rx) exactly as
+often as `itertools.product(names, names)` produces it** (equality of multisets). -/
+theorem viewnames_all_pairs (names : List Word) :
+    (makeViewnames names false).Perm (allPairs names) := by
+  simpa [makeViewnames] using ViewsLemmas.sortViews_perm (allPairs names)
+
+/-- a view name is produced iff both its path names are in `names` -/
+theorem mem_allPairs {names : List Word} {v : VName} :
+    v ∈ allPairs names ↔ v.1 ∈ names ∧ v.2 ∈ names := ViewsLemmas.mem_allPairs
+
+theorem mem_viewnames {names : List Word} {v : VName} :
+    v ∈ makeViewnames names false ↔ v.1 ∈ names ∧ v.2 ∈ names :=
+  (viewnames_all_pairs names).mem_iff.trans mem_allPairs
+
+/-- with distinct path names every one of the n² view names appears exactly once -/
+theorem viewnames_nodup (names : List Word) (h : names.Nodup) :
+    (makeViewnames names false).Nodup :=
+  (viewnames_all_pairs names).nodup_iff.mpr (ViewsLemmas.allPairs_nodup h)
+
+theorem viewnames_length (names : List Word) :
+    (makeViewnames names false).length = names.length * names.length := by
+  have hsum : ∀ (l : List Word) (n : Nat), (List.map (fun _ => n) l).sum = l.length * n := by
+    intro l n
+    induction l with
+    | nil => simp
+    | cons a as ih => simp [ih, Nat.succ_mul, Nat.add_comm]
+  rw [(viewnames_all_pairs names).length_eq]
+  simp [allPairs, List.length_flatMap, hsum]
+
+example : makeViewnames [['L'], ['T']] false
+    = [(['L'],['L']), (['L'],['T']), (['T'],['L']), (['T'],['T'])] := by decide
+example : ([['L'], ['T'], ['L','T']] : List Word).Nodup := by decide
+
+/-- the key order is irreflexive -/
+theorem keyLt_irrefl (a : VName) : keyLt a a = false := ViewsLemmas.keyLt_irrefl a
+
+/-- the key order is transitive -/
+theorem keyLt_trans {a b c : VName} (h1 : keyLt a b = true) (h2 : keyLt b c = true) :
+    keyLt a c = true := ViewsLemmas.keyLt_trans h1 h2
+
+/-- the key order is total: two different view names are always strictly ordered (the key
+contains both path names, so there are no ties between different views) -/
+theorem keyLt_total {a b : VName} (h : a ≠ b) : keyLt a b = true ∨ keyLt b a = true :=
+  ViewsLemmas.keyLt_total h
+
+theorem keyLt_asymm {a b : VName} (h : keyLt a b = true) : keyLt b a = false :=
+  ViewsLemmas.keyLt_asymm h
+
+example : keyLt (['T'],['T']) (['L','T'],['L']) = true
+    ∧ keyLt (['L','T'],['L']) (['L'],['L','T']) = true
+    ∧ keyLt (['L'],['L','T']) (['L','T'],['L']) = false := by decide
+
+/-- **The result is in non-decreasing key order** (`default_viewname_order`: total length, then
+longest path, then rx length, tx length, tx name, rx name). -/
+theorem viewnames_sorted (names : List Word) :
+    (makeViewnames names false).Pairwise (fun a b => keyLt b a = false) := by
+  simpa [makeViewnames] using ViewsLemmas.sortViews_sorted (allPairs names)
+
+/-- with distinct path names the order is strict -/
+theorem viewnames_strict_sorted (names : List Word) (h : names.Nodup) :
+    (makeViewnames names false).Pairwise (fun a b => keyLt a b = true) := by
+  refine List.Pairwise.imp₂ ?_ (viewnames_sorted names) (viewnames_nodup names h)
+  intro a b hle hne
+  rcases keyLt_total hne with h' | h'
+  · exact h'
+  · rw [h'] at hle; cases hle
+
+/-- **The order of the result is completely determined by the key**: any strictly increasing
+arrangement of the n² pairs is the list that `make_viewnames` returns. (The hypothesis that the
+names are distinct is not used — it is implied by the existence of a strictly increasing
+arrangement — see `viewnames_unique_order'`.) -/
+theorem viewnames_unique_order' (names : List Word) (l : List VName)
+    (hp : l.Perm (allPairs names)) (hs : l.Pairwise (fun a b => keyLt a b = true)) :
+    l = makeViewnames names false := by
+  refine List.Perm.eq_of_pairwise (le := fun a b => keyLt b a = false) ?_ ?_
+    (viewnames_sorted names) (hp.trans (viewnames_all_pairs names).symm)
+  · intro a b _ _ h1 h2
+    exact ViewsLemmas.keyLe_antisymm h1 h2
+  · exact hs.imp keyLt_asymm
+
+theorem viewnames_unique_order (names : List Word) (_h : names.Nodup) (l : List VName)
+    (hp : l.Perm (allPairs names)) (hs : l.Pairwise (fun a b => keyLt a b = true)) :
+    l = makeViewnames names false :=
+  viewnames_unique_order' names l hp hs
+
+example : ([(['L'],['L']), (['L'],['T']), (['T'],['L']), (['T'],['T'])] : List VName).Perm
+      (allPairs [['L'], ['T']])
+    ∧ ([(['L'],['L']), (['L'],['T']), (['T'],['L']), (['T'],['T'])] : List VName).Pairwise
+      (fun a b => keyLt a b = true) := by decide
+
+/-! ## Reciprocal views -/
+
+/-- a set of path names closed under reversal gives a set of view names closed under
+reciprocity -/
+theorem mem_allPairs_recip {names : List Word} (hc : ∀ w ∈ names, w.reverse ∈ names)
+    {v : VName} (hv : v ∈ allPairs names) : recip v ∈ allPairs names := by
+  rw [mem_allPairs] at hv ⊢
+  exact ⟨hc _ hv.2, hc _ hv.1⟩
+
+theorem mem_viewnames_recip {names : List Word} (hc : ∀ w ∈ names, w.reverse ∈ names)
+    {v : VName} (hv : v ∈ makeViewnames names false) : recip v ∈ makeViewnames names false :=
+  (viewnames_all_pairs names).mem_iff.mpr
+    (mem_allPairs_recip hc ((viewnames_all_pairs names).mem_iff.mp hv))
+
+example : (∀ w ∈ [['L'], ['T'], ['L','T'], ['T','L']],
+      w.reverse ∈ ([['L'], ['T'], ['L','T'], ['T','L']] : List Word))
+    ∧ recip (['L','T'], ['T']) = (['T'], ['T','L']) := by decide
+
+/-! ## Unique views are reciprocity classes
+
+The three facts (a), (b) hold for every list of views; (c) needs only that the list has no
+duplicates. None needs the list to be closed under `recip`. -/
+
+/-- `filter_unique_views` keeps a sub-list: the order is unchanged and nothing is invented -/
+theorem filterUnique_sublist (views : List VName) : (filterUnique views).Sublist views := by
+  rw [ViewsLemmas.filterUnique_eq]
+  exact ViewsLemmas.uniqAux_sublist [] views
+
+/-- (a) **every reciprocity class is represented**: of `v` and `recip v` at least one is kept -/
+theorem unique_covers (views : List VName) :
+    ∀ v ∈ views, v ∈ filterUnique views ∨ recip v ∈ filterUnique views := by
+  intro v hv
+  rw [ViewsLemmas.filterUnique_eq]
+  rcases ViewsLemmas.uniqAux_covers (seen := []) hv with h | h | h
+  · exact Or.inl h
+  · exact Or.inr h
+  · cases h
+
+/-- (b) **at most one member of each class is kept** -/
+theorem unique_one_per_class (views : List VName) :
+    ∀ v ∈ filterUnique views, recip v ≠ v → recip v ∉ filterUnique views := by
+  intro v hv hne
+  rw [ViewsLemmas.filterUnique_eq] at hv ⊢
+  exact ViewsLemmas.uniqAux_one_per_class hv hne
+
+/-- (c) **the member that is kept is the one that comes first** -/
+theorem unique_is_first (views : List VName) (hnd : views.Nodup) :
+    ∀ v ∈ filterUnique views, ∀ i j : Nat, views[i]? = some v → views[j]? = some (recip v) → i ≤ j := by
+  intro v hv i j hi hj
+  rw [ViewsLemmas.filterUnique_eq] at hv
+  exact ViewsLemmas.uniqAux_is_first hnd (by simp) hv hi hj
+
+/-- **characterisation**: in a duplicate-free list, a view is kept iff its reciprocal does not
+come before it -/
+theorem filterUnique_keeps_first (views : List VName) (hnd : views.Nodup) (v : VName) :
+    v ∈ filterUnique views ↔
+      v ∈ views ∧ ∀ i j : Nat, views[i]? = some v → views[j]? = some (recip v) → i ≤ j := by
+  constructor
+  · intro hv
+    exact ⟨(filterUnique_sublist views).subset hv, unique_is_first views hnd v hv⟩
+  · rintro ⟨hv, hfirst⟩
+    rcases unique_covers views v hv with h | h
+    · exact h
+    · obtain ⟨i, hi⟩ := List.mem_iff_getElem?.mp hv
+      obtain ⟨j, hj⟩ := List.mem_iff_getElem?.mp ((filterUnique_sublist views).subset h)
+      have h1 : i ≤ j := hfirst i j hi hj
+      have h2 : j ≤ i := unique_is_first views hnd (recip v) h j i hj
+        (by rw [recip_involutive]; exact hi)
+      have hij : i = j := Nat.le_antisymm h1 h2
+      subst hij
+      rw [hi] at hj
+      have : v = recip v := Option.some.inj hj
+      rw [← this] at h
+      exact h
+
+example : filterUnique [(['L'],['T']), (['T'],['L']), (['L','T'],['T']), (['T'],['T','L'])]
+    = [(['L'],['T']), (['L','T'],['T'])] := by decide
+example : (makeViewnames [['L'], ['T'], ['L','T'], ['T','L']] false).Nodup
+    ∧ (∀ v ∈ makeViewnames [['L'], ['T'], ['L','T'], ['T','L']] false,
+        recip v ∈ makeViewnames [['L'], ['T'], ['L','T'], ['T','L']] false)
+    ∧ (makeViewnames [['L'], ['T'], ['L','T'], ['T','L']] false).length = 16
+    ∧ (makeViewnames [['L'], ['T'], ['L','T'], ['T','L']] true).length = 10 := by decide
+
+/-! ### … applied to `make_viewnames(names, unique_only=True)` -/
+
+theorem viewnames_unique_sublist (names : List Word) :
+    (makeViewnames names true).Sublist (makeViewnames names false) := by
+  simpa [makeViewnames] using filterUnique_sublist (sortViews (allPairs names))
+
+/-- **The unique views are exactly the key-smallest members of the reciprocity classes**: for
+distinct path names closed under reversal, `v` is a unique view iff it is a view and
+`key v ≤ key (recip v)`. -/
+theorem viewnames_unique_iff (names : List Word) (hn : names.Nodup)
+    (hc : ∀ w ∈ names, w.reverse ∈ names) (v : VName) :
+    v ∈ makeViewnames names true ↔ v ∈ allPairs names ∧ keyLt (recip v) v = false := by
+  have hS : makeViewnames names true = filterUnique (makeViewnames names false) := by
+    simp [makeViewnames]
+  have hnd := viewnames_nodup names hn
+  have key : ∀ u ∈ filterUnique (makeViewnames names false), keyLt (recip u) u = false := by
+    intro u hu
+    have hu' := (filterUnique_sublist _).subset hu
+    obtain ⟨i, hi⟩ := List.mem_iff_getElem?.mp hu'
+    obtain ⟨j, hj⟩ := List.mem_iff_getElem?.mp (mem_viewnames_recip hc hu')
+    have hij := unique_is_first _ hnd u hu i j hi hj
+    obtain ⟨hi', hie⟩ := List.getElem?_eq_some_iff.mp hi
+    obtain ⟨hj', hje⟩ := List.getElem?_eq_some_iff.mp hj
+    rcases Nat.lt_or_eq_of_le hij with hlt | heq
+    · have := List.pairwise_iff_getElem.mp (viewnames_sorted names) i j hi' hj' hlt
+      rw [hie, hje] at this
+      exact this
+    · subst heq
+      rw [hie] at hje
+      rw [← hje]
+      exact keyLt_irrefl u
+  rw [hS]
+  constructor
+  · intro hv
+    exact ⟨(viewnames_all_pairs names).mem_iff.mp ((filterUnique_sublist _).subset hv), key v hv⟩
+  · rintro ⟨hv, hle⟩
+    have hv' := (viewnames_all_pairs names).mem_iff.mpr hv
+    rcases unique_covers _ v hv' with h | h
+    · exact h
+    · have h2 := key (recip v) h
+      rw [recip_involutive] at h2
+      have : v = recip v := ViewsLemmas.keyLe_antisymm hle h2
+      rw [← this] at h
+      exact h
+
+/-- hence the list of unique views is the sorted list of all views filtered by
+`key v ≤ key (recip v)` -/
+theorem viewnames_unique_eq_filter (names : List Word) (hn : names.Nodup)
+    (hc : ∀ w ∈ names, w.reverse ∈ names) :
+    makeViewnames names true
+      = (makeViewnames names false).filter (fun v => !keyLt (recip v) v) := by
+  have hstrict := viewnames_strict_sorted names hn
+  have hnd := viewnames_nodup names hn
+  have hs1 := viewnames_unique_sublist names
+  have hs2 : ((makeViewnames names false).filter (fun v => !keyLt (recip v) v)).Sublist
+      (makeViewnames names false) := List.filter_sublist
+  refine List.Perm.eq_of_pairwise (le := fun a b => keyLt b a = false) ?_
+    ((hstrict.sublist hs1).imp keyLt_asymm) ((hstrict.sublist hs2).imp keyLt_asymm) ?_
+  · intro a b _ _ h1 h2
+    exact ViewsLemmas.keyLe_antisymm h1 h2
+  · rw [List.perm_ext_iff_of_nodup (hs1.nodup hnd) (hs2.nodup hnd)]
+    intro v
+    rw [viewnames_unique_iff names hn hc v, List.mem_filter, (viewnames_all_pairs names).mem_iff]
+    simp
+
+example : makeViewnames [['L'], ['T'], ['L','T'], ['T','L']] true
+    = (makeViewnames [['L'], ['T'], ['L','T'], ['T','L']] false).filter
+        (fun v => !keyLt (recip v) v) := by decide
 
 end Arim.C18
